@@ -15,5 +15,6 @@ import FpgoVerif.Props.C17
 #print axioms FpgoVerif.C17.C17_errors
 #print axioms FpgoVerif.C17.C17_decode_errors
 #print axioms FpgoVerif.C17.C17_decode_empty_body
+#print axioms FpgoVerif.C17.C17_value_bodies_serialized
 #print axioms FpgoVerif.C17.C17_pinned_decoder_panics
 #print axioms FpgoVerif.C17.C17_shared_header_refuted
